@@ -58,14 +58,14 @@ NoArgs == [outs |-> <<>>, log |-> <<>>, lk |-> TRUE, fail |-> AnyOut]   \* fail 
 AllOk(outs) == \A i \in 1..Len(outs) : outs[i].o = "ok"
 Vals(outs) == [i \in 1..Len(outs) |-> outs[i].v]
 
-(* map literal entries: key then value, in order *)
+(* map literal entries in order; no property orders an entry's key against its value *)
 EvalPairs(kv, i, env, acc) ==
     IF i > Len(kv) THEN acc
     ELSE LET k == Eval(kv[i][1], env)
              v == Eval(kv[i][2], env)
          IN EvalPairs(kv, i + 1, env,
                       [ks |-> Append(acc.ks, k.o), vs |-> Append(acc.vs, v.o),
-                       log |-> acc.log \o k.log \o v.log, lk |-> acc.lk /\ k.lk /\ v.lk])
+                       log |-> acc.log \o k.log \o v.log, lk |-> acc.lk /\ k.lk /\ v.lk /\ (k.log = <<>> \/ v.log = <<>>)])
 
 (* comprehension macros over a list (C07): kind, elements, index, loop variable, body trees, env, state *)
 Fold(kind, xs, i, x, bodies, env, st) ==
